@@ -251,4 +251,253 @@ theorem choice_pos_weight_any_sign' (s n : Nat) (ws : List Rat) (hlen : ws.lengt
   simp at hf
   simp [hf, ← hlen, hi]
 
+/-! ### error paths (phase 4 continued) -/
+
+theorem choice_ok_state (s n : Nat) (w : Option (List Rat)) (s' i : Nat)
+    (h : choice s n w = .ok (s', i)) : s' = next s ∧ i < n := by
+  unfold choice at h
+  cases w with
+  | none =>
+    simp only at h
+    split at h
+    · cases h
+    · rename_i hn
+      cases h
+      exact ⟨rfl, scaled_lt s n (Nat.pos_of_ne_zero hn)⟩
+  | some ws =>
+    simp only at h
+    split at h
+    · cases h
+    · split at h
+      · cases h
+      · split at h
+        · rename_i j hj
+          split at h
+          · rename_i hlt; cases h; exact ⟨rfl, hlt⟩
+          · cases h
+        · cases h
+
+theorem choice_err_cases (s n : Nat) (w : Option (List Rat)) (e : Err) (h : choice s n w = .error e) :
+    (e = .valueError ∧ ∃ ws, w = some ws ∧ ((ws ≠ [] ∧ ws.length ≠ n) ∨ sum ws = 0)) ∨
+    (e = .indexError ∧ w = none ∧ n = 0) ∨
+    (e = .stopIteration ∧ ∃ ws, w = some ws ∧ ¬ (ws ≠ [] ∧ ws.length ≠ n) ∧ sum ws ≠ 0) := by
+  unfold choice at h
+  cases w with
+  | none =>
+    simp only at h
+    split at h
+    · rename_i hn; cases h; exact Or.inr (Or.inl ⟨rfl, rfl, hn⟩)
+    · cases h
+  | some ws =>
+    simp only at h
+    split at h
+    · rename_i hc; cases h; exact Or.inl ⟨rfl, ws, rfl, Or.inl hc⟩
+    · rename_i hc
+      split at h
+      · rename_i ht; cases h; exact Or.inl ⟨rfl, ws, rfl, Or.inr ht⟩
+      · rename_i ht
+        split at h
+        · split at h
+          · cases h
+          · cases h; exact Or.inr (Or.inr ⟨rfl, ws, rfl, hc, ht⟩)
+        · cases h; exact Or.inr (Or.inr ⟨rfl, ws, rfl, hc, ht⟩)
+
+theorem choicew_err_is_choice_err (s n : Nat) (w : Option (List Rat)) (e : Err) (h : choicew s n w = .error e) :
+    choice s n w = .error e := by
+  unfold choicew at h
+  cases w with
+  | none =>
+    simp only at h
+    cases hc : choice s n none with
+    | error e' => rw [hc] at h; simp only at h; cases h; rfl
+    | ok p =>
+      obtain ⟨s', i⟩ := p
+      rw [hc] at h
+      simp only at h
+      have := (choice_ok_state s n none s' i hc).2
+      split at h
+      · omega
+      · cases h
+  | some ws =>
+    simp only at h
+    cases hc : choice s n (some ws) with
+    | error e' => rw [hc] at h; simp only at h; cases h; rfl
+    | ok p =>
+      obtain ⟨s', i⟩ := p
+      rw [hc] at h
+      simp only at h
+      have hi := (choice_ok_state s n (some ws) s' i hc).2
+      -- a successful weighted choice has matching lengths, so `ws[i]` exists
+      have hlen : ws.length = n := by
+        unfold choice at hc
+        simp only at hc
+        split at hc
+        · cases hc
+        · rename_i hcond
+          by_cases hnil : ws = []
+          · subst hnil
+            have : sum ([] : List Rat) = 0 := by simp [sum]
+            simp [this] at hc
+          · by_contra hne; exact hcond ⟨hnil, hne⟩
+      have : i < ws.length := by omega
+      rw [List.getElem?_eq_getElem this] at h
+      cases h
+
+theorem choicew_ok_state (s n : Nat) (w : Option (List Rat)) (s' i : Nat) (x : Rat)
+    (h : choicew s n w = .ok (s', i, x)) : s' = next s := by
+  unfold choicew at h
+  cases w with
+  | none =>
+    simp only at h
+    cases hc : choice s n none with
+    | error e' => rw [hc] at h; cases h
+    | ok p =>
+      obtain ⟨s'', j⟩ := p
+      rw [hc] at h; simp only at h
+      split at h
+      · cases h
+      · cases h; exact (choice_ok_state s n none _ _ hc).1
+  | some ws =>
+    simp only at h
+    cases hc : choice s n (some ws) with
+    | error e' => rw [hc] at h; cases h
+    | ok p =>
+      obtain ⟨s'', j⟩ := p
+      rw [hc] at h; simp only at h
+      split at h
+      · cases h; exact (choice_ok_state s n (some ws) _ _ hc).1
+      · cases h
+
+/-- **which error paths consume a draw:** a `choice` call leaves the generator untouched exactly when it
+answers `ValueError` (length mismatch / zero total: rejected before the draw); in every other case —
+success, `IndexError` on an empty sequence, `StopIteration` when nothing is found — exactly one uniform
+has been consumed (and the gaussian buffer is never touched) -/
+theorem choice_error_state' (g : Gen) (n : Nat) (w : Option (List Rat)) :
+    ((stepE g (.choice n w)).2 = .err .valueError ∧ (stepE g (.choice n w)).1 = g ∧
+        ∃ ws, w = some ws ∧ ((ws ≠ [] ∧ ws.length ≠ n) ∨ sum ws = 0)) ∨
+    ((stepE g (.choice n w)).2 ≠ .err .valueError ∧ (stepE g (.choice n w)).1 = { g with s := next g.s }) := by
+  simp only [stepE]
+  cases hc : choice g.s n w with
+  | ok p =>
+    obtain ⟨s', i⟩ := p
+    right
+    have := (choice_ok_state g.s n w s' i hc).1
+    subst this
+    exact ⟨by simp, rfl⟩
+  | error e =>
+    rcases choice_err_cases g.s n w e hc with ⟨rfl, hws⟩ | ⟨rfl, _, _⟩ | ⟨rfl, _⟩
+    · left; exact ⟨rfl, by simp [errConsumes], hws⟩
+    · right; exact ⟨by simp, by simp [errConsumes]⟩
+    · right; exact ⟨by simp, by simp [errConsumes]⟩
+
+theorem choicew_error_state' (g : Gen) (n : Nat) (w : Option (List Rat)) :
+    ((stepE g (.choicew n w)).2 = .err .valueError ∧ (stepE g (.choicew n w)).1 = g ∧
+        ∃ ws, w = some ws ∧ ((ws ≠ [] ∧ ws.length ≠ n) ∨ sum ws = 0)) ∨
+    ((stepE g (.choicew n w)).2 ≠ .err .valueError ∧ (stepE g (.choicew n w)).1 = { g with s := next g.s }) := by
+  simp only [stepE]
+  cases hc : choicew g.s n w with
+  | ok p =>
+    obtain ⟨s', i, x⟩ := p
+    right
+    have := choicew_ok_state g.s n w s' i x hc
+    subst this
+    exact ⟨by simp, rfl⟩
+  | error e =>
+    have hc' := choicew_err_is_choice_err g.s n w e hc
+    rcases choice_err_cases g.s n w e hc' with ⟨rfl, hws⟩ | ⟨rfl, _, _⟩ | ⟨rfl, _⟩
+    · left; exact ⟨rfl, by simp [errConsumes], hws⟩
+    · right; exact ⟨by simp, by simp [errConsumes]⟩
+    · right; exact ⟨by simp, by simp [errConsumes]⟩
+
+/-- `choicew` never fails with an error of its own (`1/len(seq)`, `weights[i]`): its errors are `choice`'s -/
+theorem choicew_no_own_error' (s n : Nat) (w : Option (List Rat)) (e : Err) (h : choicew s n w = .error e) :
+    e ≠ .zeroDivision := by
+  have hc := choicew_err_is_choice_err s n w e h
+  rcases choice_err_cases s n w e hc with ⟨rfl, _⟩ | ⟨rfl, _⟩ | ⟨rfl, _⟩ <;> simp
+
+/-- on every call that does not end in `StopIteration` the exact semantics is the old `step` -/
+theorem stepE_eq_step' (g : Gen) (o : Op) (h : (stepE g o).2 ≠ .err .stopIteration) : stepE g o = step g o := by
+  cases o with
+  | choice n w =>
+    simp only [stepE, step] at h ⊢
+    cases hc : choice g.s n w with
+    | ok p => rfl
+    | error e => rw [hc] at h; cases e <;> simp_all [errConsumes]
+  | choicew n w =>
+    simp only [stepE, step] at h ⊢
+    cases hc : choicew g.s n w with
+    | ok p => rfl
+    | error e => rw [hc] at h; cases e <;> simp_all [errConsumes]
+  | _ => rfl
+
+/-! generic runners -/
+
+theorem crunOneW_ops (f : Gen → Op → Gen × Out) (x : Inst) (ops : List Op) :
+    crunOneW f x (ops.map .op) = runOneW f x.g ops := by
+  induction ops generalizing x with
+  | nil => simp [crunOneW, runOneW]
+  | cons o ops ih =>
+    simp only [List.map_cons, crunOneW, cstepW, runOneW]
+    rw [ih]
+
+theorem crunOneW_append (f : Gen → Op → Gen × Out) (x : Inst) (pre post : List Call) :
+    crunOneW f x (pre ++ post) = crunOneW f x pre ++ crunOneW f (cafterW f x pre) post := by
+  induction pre generalizing x with
+  | nil => simp [crunOneW, cafterW]
+  | cons c cs ih =>
+    simp only [List.cons_append, crunOneW, cafterW]
+    cases h : (cstepW f x c).2 with
+    | none => simp [ih]
+    | some out => simp [ih]
+
+theorem cafterW_ops_seed0 (f : Gen → Op → Gen × Out) (x : Inst) (ops : List Op) :
+    (cafterW f x (ops.map .op)).seed0 = x.seed0 := by
+  induction ops generalizing x with
+  | nil => rfl
+  | cons o ops ih =>
+    simp only [List.map_cons, cafterW, cstepW]
+    rw [ih]
+
+theorem seed_then_historyW' (f : Gen → Op → Gen × Out) (x : Inst) (s : Nat) (ops : List Op) :
+    crunOneW f x (.reseed s :: ops.map .op) = runOneW f { s := s } ops := by
+  simp only [crunOneW, cstepW]
+  rw [crunOneW_ops]; rfl
+
+theorem seed_forgets_pastW' (f : Gen → Op → Gen × Out) (x : Inst) (pre : List Call) (s : Nat) (post : List Call) :
+    crunOneW f x (pre ++ .reseed s :: post) = crunOneW f x pre ++ crunOneW f (fresh s) post := by
+  rw [crunOneW_append]
+  simp [crunOneW, cstepW]
+
+theorem pickle_restores_seedW' (f : Gen → Op → Gen × Out) (s : Nat) (ops : List Op) (post : List Call) :
+    crunOneW f (fresh s) (ops.map .op ++ .repickle :: post)
+      = runOneW f { s := s } ops ++ crunOneW f (fresh s) post := by
+  rw [crunOneW_append, crunOneW_ops]
+  simp only [crunOneW, cstepW, cafterW_ops_seed0]
+  rfl
+
+theorem frame_callsW' (f : Gen → Op → Gen × Out) (st : Nat → Inst) (h : List (Nat × Call)) (i : Nat) :
+    ((crunW f st h).filter (·.1 = i)).map (·.2) = crunOneW f (st i) ((h.filter (·.1 = i)).map (·.2)) := by
+  induction h generalizing st with
+  | nil => simp [crunW, crunOneW]
+  | cons p h ih =>
+    obtain ⟨j, c⟩ := p
+    simp only [crunW]
+    by_cases hji : j = i
+    · subst hji
+      cases ho : (cstepW f (st j) c).2 with
+      | none => simp [crunOneW, ho, ih]
+      | some out => simp [crunOneW, ho, ih]
+    · have hst : (fun k => if k = j then (cstepW f (st j) c).1 else st k) i = st i := by
+        simp [Ne.symm hji]
+      cases ho : (cstepW f (st j) c).2 with
+      | none => simp [hji, ih, hst]
+      | some out => simp [hji, ih, hst]
+
+theorem crunW_step' (st : Nat → Inst) (h : List (Nat × Call)) : crunW step st h = crun st h := by
+  induction h generalizing st with
+  | nil => rfl
+  | cons p h ih =>
+    obtain ⟨j, c⟩ := p
+    cases c <;> simp [crunW, crun, cstepW, cstep, ih]
+
 end Coba.C05
